@@ -221,3 +221,22 @@ Lemma prequote_refuted :
 Proof.
   exists p_quote, f_qt. destruct quote_refuted as [H1 [H2 H3]]. repeat split; assumption.
 Qed.
+
+(* ---------- the four proposed repairs: the former refutations become exact in `next` ---------- *)
+Definition p_and3 := PAnd (PCmp ["d"] CEq (KNum 8)) (PCmp ["d"] CEq (KStr "x")).
+Example next_repairs :
+  (exists q, compile next p_join = Ok q /\ sem q f0 = eval p_join f0 /\ sem q f2 = eval p_join f2) /\
+  (exists q, compile next p_join2 = Ok q /\ sem q f1 = eval p_join2 f1) /\
+  (exists q, compile next p_tab3 = Ok q /\ sem q f0 = true /\ sem q f1 = true /\ sem q f2 = false) /\
+  (exists q, compile next p_ninfo = Ok q /\ sem q f2 = true /\ sem q f0 = false /\ sem q f1 = true) /\
+  (exists q, compile next p_nattr = Ok q /\ sem q f_null = true) /\
+  (exists q, compile next p_notj = Ok q /\ sem q f0 = false /\ sem q f1 = true /\ sem q f2 = true) /\
+  compile next p_and3 = Err EAssertion.
+Proof. vm_compute. repeat split; eexists; repeat split. Qed.
+Example next_guard_holds :
+  safe_with next false false true false p_join = true /\ safe_with next false false true false p_join2 = true /\
+  safe_with next false false true false p_tab3 = true /\ safe_with next false false true false p_ninfo = true /\
+  safe_with next false false true false p_nattr = true /\ safe_with next false false true false p_notj = true /\
+  safe_with next false false true false (PNot (PAnd p_join (POr p_ninfo (PNot p_notj)))) = true /\
+  guard_next (PNot (PAnd p_join (POr p_ninfo p_nattr))) db5.
+Proof. unfold guard_next. vm_compute. repeat split. Qed.
